@@ -48,7 +48,7 @@ def main():
     from pathsym import loader
     extra['source_sha256'] = loader.source_digest()
     extra['translation_validation'] = {'instrumented_modules': sorted(set(loader.STATS['modules'])), 'repo_tests_through_instrumented_modules': tv,
-                                       'regex_interpreter_vs_re_comparisons': validated}
+                                       'stub_and_interpreter_comparisons_against_the_real_library': validated}
     if hasattr(mod, 'post'):
         mod.post(a.tier, results, extra)
     rc = common.finish(a.pid, a.tier, seed, results, t0, extra)
